@@ -304,7 +304,7 @@ func (f Field) leftComplete(fld Field, i, def, rep, maxDef, maxRep, defs, reps i
 		return true
 	}
 
-	if defs == maxDef && fld.RepetitionType != Required && f.NthChild == 0 {
+	if defs == maxDef && fld.RepetitionType != Required && f.NthChild == 0 && !fld.Defined {
 		return true
 	}
 
@@ -388,6 +388,11 @@ func (f Field) Init(def, rep int) string {
 				if (fld.Parent.IsRoot() || fld.Parent.Defined) && fld.Parent.RepetitionType == Repeated && (rep == 0 || rep == reps) { //Should this be a check for repeated anywhere in the full chain?
 					right = fmt.Sprintf(right, "vals[nVals]%s")
 				} else if (fld.Parent.Parent == nil || fld.Parent.Defined) && rep == 0 {
+					right = fmt.Sprintf(right, "vals[0]%s")
+				} else if j == 0 && maxRep > 0 {
+					// the left side already names the leaf itself
+					right = fmt.Sprintf(right, "vals[nVals]%s")
+				} else if j == 0 {
 					right = fmt.Sprintf(right, "vals[0]%s")
 				} else if fld.Parent.RepetitionType == Repeated {
 					right = fmt.Sprintf(right, fmt.Sprintf("%s: vals[nVals]%%s", fld.Name))
